@@ -240,7 +240,16 @@ def pmap(fn, args, fresh=False, procs=None, chunksize=1):
         pool.terminate()
         raise HarnessError('worker pool did not finish within %ds (a worker died or hung) in %s' % (limit, getattr(fn, '__name__', fn)))
   res = []
-  for kind, val in out:
+  for i, (kind, val) in enumerate(out):
+    if kind == 'crash':
+      # a worker crashed: run that one task once more in a process of its own (a machine short of threads or memory
+      # under load must not turn into a harness error); a crash that repeats is reported with both tracebacks
+      ctx = multiprocessing.get_context('fork')
+      with ctx.Pool(1, maxtasksperchild=1) as pool:
+        kind2, val2 = pool.apply(_call, ((fn, args[i]),))
+      if kind2 == 'crash':
+        raise HarnessError('worker crash (twice): %s\n--- first attempt ---\n%s' % (val2, val))
+      kind, val = kind2, val2
     if kind != 'ok':
       raise HarnessError('worker %s: %s' % (kind, val))
     res.append(val)
